@@ -101,6 +101,12 @@ func c12(c *Ctx) {
 		}
 		fVals := aggField(ax, sp.typ, "values")
 		fltr := fn.Obj.Type().(*types.Signature).Params().At(2)
+		// the look-up-or-create step may have been moved into a helper that measure calls with the lock held
+		if w, pm := ax.workFunc(fn, func(n ast.Node) bool { call, ok := n.(*ast.CallExpr); return ok && callToDecl(info, limAttr)(call) }); w != nil && w != fn {
+			if p := pm(fltr); p != nil {
+				fn, fltr = w, p
+			}
+		}
 		var attr types.Object
 		var callNode ast.Node
 		inspectNoLit(fn.Body(), func(n ast.Node) bool {
@@ -120,6 +126,10 @@ func c12(c *Ctx) {
 			continue
 		}
 		held := le.HeldAt(fn, callNode)[varKey(fn.Recv())+resolvePath(ax.Pkg, sp.typ, sp.mu)]
+		if !held {
+			// a helper: the lock is its callers' business (discharged at every static call site)
+			held, _ = le.Require(fn, callNode, varKey(fn.Recv())+resolvePath(ax.Pkg, sp.typ, sp.mu), false, 0)
+		}
 		good, why := true, ""
 		n := 0
 		inspectNoLit(fn.Body(), func(nd ast.Node) bool {
@@ -128,7 +138,14 @@ func c12(c *Ctx) {
 				return true
 			}
 			n++
-			call, ok := unparen(ie.Index).(*ast.CallExpr)
+			idx := unparen(ie.Index)
+			if id, isID := idx.(*ast.Ident); isID {
+				// key := attr.Equivalent() computed once
+				if def := ax.FG(fn).LocalDef(info.Uses[id]); def != nil {
+					idx = unparen(def)
+				}
+			}
+			call, ok := idx.(*ast.CallExpr)
 			if !ok || !isCallTo(info, call, "(*go.opentelemetry.io/otel/attribute.Set).Equivalent") {
 				good, why = false, "index "+exprStr(ie.Index)
 				return true
@@ -282,8 +299,16 @@ func c12(c *Ctx) {
 			})
 			good, _ := a.g.DominatedByEdges(a.x, func(e *GEdge) bool {
 				return edgeImplies(e, func(cnd ast.Expr, pol int) bool {
-					id, ok := cnd.(*ast.Ident)
-					return ok && pol < 0 && notSeen[minfo.Uses[id]]
+					if id, ok := cnd.(*ast.Ident); ok && pol < 0 && notSeen[minfo.Uses[id]] {
+						return true
+					}
+					// the set kept as a slice: !slices.Contains(seen, id) with `seen` a local that ids are appended to
+					if call, ok := cnd.(*ast.CallExpr); ok && pol < 0 && (isCallTo(minfo, call, "slices.Contains") || isCallTo(minfo, call, "slices.Index")) && len(call.Args) == 2 {
+						if v, isV := objOf(minfo, call.Args[0]).(*types.Var); isV && !v.IsField() {
+							return true
+						}
+					}
+					return false
 				})
 			})
 			c.Check(good, "R5", "sdk/metric|"+a.f.Name+"|view-loop append dominated by the id-not-seen test", at(mx.M, a.x.N.Pos()), "one measure per distinct aggregator",
